@@ -265,6 +265,17 @@ def gbtrs(ab, kl, ku, b, ipiv, trans=False):
     return solve_contract(A, b, bool(trans)), 0
 
 
+def gbtrs_real(ab, kl, ku, b, ipiv, trans=False):
+    """dgbtrs: the f2py wrapper converts its right-hand side to float64; the imaginary part of complex input is discarded
+    (numpy only emits a ComplexWarning)"""
+    bb = _np.asarray(b, dtype=object)
+    out = _np.empty(bb.shape, dtype=object)
+    for idx in _np.ndindex(*bb.shape):
+        x = bb[idx]
+        out[idx] = x.re if isinstance(x, symx.SComplex) else (x.real if isinstance(x, complex) else x)
+    return gbtrs(ab, kl, ku, out, ipiv, trans)
+
+
 class Dense:
     """stand-in for scipy.sparse matrices of the small collocation matrix"""
 
@@ -339,7 +350,7 @@ def patch_module(mod, extra=None):
     import scipy.sparse.linalg as spl
     shim = NPNum()
     table = [(numpy, shim), (numpy.empty, oempty), (numpy.zeros, shim.zeros), (numpy.ndarray, shim.ndarray),
-             (lap.dgbtrf, gbtrf), (lap.dgbtrs, gbtrs), (lap.zgbtrf, gbtrf), (lap.zgbtrs, gbtrs),
+             (lap.dgbtrf, gbtrf), (lap.dgbtrs, gbtrs_real), (lap.zgbtrf, gbtrf), (lap.zgbtrs, gbtrs),
              (sp.dia_matrix, Dense), (sp.csr_matrix, Dense), (sp.csc_matrix, Dense), (spl.splu, SPLU),
              (numpy.linalg.solve, linalg_solve)]
     for k, v in list(vars(mod).items()):
